@@ -592,5 +592,20 @@ class DBCMeta(abc.ABCMeta):
             return cls
 
 
+    def __setattr__(cls, name: str, value: Any) -> None:
+        """Set the attribute and add the invariant checks to a function assigned to an already created class."""
+        super().__setattr__(name, value)
+
+        # A function can be assigned to the class after the class has been created (*e.g.*, ``dataclasses.dataclass``
+        # generates the constructor and assigns it to the class). It has to check the invariants as any other function
+        # defined in the class body.
+        if (
+            inspect.isfunction(value)
+            and len(getattr(cls, "__invariants__", [])) > 0
+            and not icontract._checkers._already_decorated_with_invariants(func=value)
+        ):
+            icontract._checkers.add_invariant_checks(cls=cls)
+
+
 class DBC(abc.ABC, metaclass=DBCMeta):
     """Provide a standard way to create a class which can inherit the contracts."""
